@@ -6,7 +6,7 @@ check("C01", "exploration",
       TCB, "runtime monitoring: crash/deadlock/spin detectors on real sessions with fault injection", "DESIGN.md 5 C01")
 
 check("C02", "exploration",
-      "Identity oracle (returned line == typed text, err == nil) over thousands of PRNG-determined printable strings from six rune classes, both modes, all meta settings for ASCII and the UTF-8 settings for non-ASCII, delivered whole / per rune / per byte / at random cuts.",
+      "Identity oracle (returned line == typed text, err == nil) over thousands of PRNG-determined printable strings from six rune classes, both modes, all meta settings for ASCII and the UTF-8 settings for non-ASCII, delivered whole / per rune / per byte / at random cuts, and as single writes of 1-3 KiB (longer than the library's read buffer).",
       TCB, "runtime monitoring: identity oracle on real Readline sessions", "DESIGN.md 5 C02")
 
 check("C03", "exploration",
@@ -14,23 +14,23 @@ check("C03", "exploration",
       TCB + " Inputs whose expected behaviour the statement leaves open are skipped and counted.", "runtime monitoring: reference dispatcher vs probe-command invocation log", "DESIGN.md 5 C03")
 
 check("C04", "exploration",
-      "Independent layout oracle vs the emulator grid at every main input wait (prompt cells, wrapping incl. wide characters at the margin, one row per embedded newline, blank elsewhere, cursor cell, no remnants of earlier taller frames), judged under two ESC[K terminal models (violation only if wrong under both), over thousands of recall+edit sessions on 8-120 column terminals.",
+      "Independent layout oracle vs the emulator grid at every main input wait (prompt cells, wrapping incl. wide characters at the margin, one row per embedded newline, blank elsewhere, cursor cell, no remnants of earlier taller frames), judged under two ESC[K terminal models (violation only if wrong under both), over thousands of recall+edit sessions on 8-120 column terminals (histories with wrapped single lines next to short multi-line entries; cells left of continuation lines must be blank or a decoration glyph).",
       TCB + " Frames are classed by geometric cause (plain / tab / zero-width / wide-at-margin / exact-fill / wrapped multi-line / narrow prompt); known findings cover only the listed non-plain classes.", "runtime monitoring: terminal emulator + independent layout model", "DESIGN.md 5 C04")
 
 check("C05", "exploration",
-      "Differential oracle over delivery schedules of one byte script: base (one token per read) vs per byte, one read, random cut sets (thorough: all cut sets of scripts <= 8 bytes) and type-ahead coupled with the terminal's cursor-position reply (before / same write / after); every schedule must return the same (line, err); a disagreement is localised to a single read boundary where possible.",
+      "Differential oracle over delivery schedules of one byte script: base (one token per read) vs per byte, one read, random cut sets (thorough: all cut sets of scripts <= 8 bytes) and type-ahead coupled with the terminal's cursor-position reply (before / same write / after); mid-character schedules (every read ends inside a multi-byte character), scripts that record part of themselves as a macro and replay it; every schedule must return the same (line, err); a difference seen with type-ahead is first reduced to the equivalent plain schedule; a disagreement is localised to a single read boundary where possible.",
       TCB + " Scripts are well-formed keyboard input (valid UTF-8, complete sequences); in Vi modes the boundary directly after ESC is kept as in the base schedule.", "runtime monitoring: differential testing over controlled delivery schedules", "DESIGN.md 5 C05")
 
 check("C10", "fault_enumeration",
-      "Round trip of generated write sequences through a reopened file-backed history, and enumeration of crash points: the file cut at every byte offset of the last append (sampled for records > 4 KiB) must reopen without error with all completed entries, and an entry appended afterwards through the API must survive another reopen.",
+      "Round trip of generated write sequences through a reopened file-backed history, and enumeration of crash points: the file cut at every byte offset of the last append (sampled for records > 4 KiB) must reopen without error with all completed entries, and an entry appended afterwards through the API - NewHistoryFromFile, or a Shell-bound source (History.AddFromFile) at every third point - must survive another reopen.",
       "Crash model: process death during the single O_APPEND write leaves a byte prefix of the record (no power-loss / fsync claims). Real files on the sandbox file system.", "runtime monitoring: fault enumeration (every truncation offset) on the real history file code", "DESIGN.md 5 C10")
 
 check("C12", "exploration",
-      "Totality monitor: tens of thousands of mutated inputrc texts (truncations, byte flips, lone modifiers/directives, unterminated quotes, deep $if, 64 KiB-1 MiB lines, CR/LF/NUL mixes, random bytes) x options x include graphs (self, cycle, chain, diamond, missing, erroring) parsed in worker processes through ParseBytes, Parser.Parse and the real NewShell(INPUTRC) start-up path; no panic, no fatal error (attributed by the driver), bounded ReadFile calls.",
+      "Totality monitor: tens of thousands of mutated inputrc texts (truncations, byte flips, lone modifiers/directives, unterminated quotes, deep $if, 64 KiB-1 MiB lines, CR/LF/NUL mixes, random bytes) x options x include graphs (self, cycle, chain, diamond, missing, erroring, files including their own cycle twice) parsed in worker processes through ParseBytes, Parser.Parse and the real NewShell(INPUTRC) start-up path; no panic, no fatal error (attributed by the driver), bounded ReadFile calls.",
       "A fatal runtime error kills the worker; the driver attributes it to the running case. Recursion bound is logical (ReadFile calls), not wall clock.", "runtime monitoring: crash/recursion monitors over mutated inputs in child processes", "DESIGN.md 5 C12")
 
 check("C13", "exploration",
-      "Reference evaluator over the generator's AST vs Config.Binds/Config.Vars after parsing the rendered text, for tens of thousands of generated programs under 8 (mode, term, app) settings each; the single known deviation (inner $if ignoring an inactive enclosing block, which a pinned test requires) is recognised exactly by a second evaluator and listed as a known finding.",
+      "Reference evaluator over the generator's AST vs Config.Binds/Config.Vars after parsing the rendered text, for tens of thousands of generated programs under 8 (mode, term, app) settings each, one program in ten also through the NewShell start-up path (INPUTRC + options); the single known deviation (inner $if ignoring an inactive enclosing block, which a pinned test requires) is recognised exactly by a second evaluator and listed as a known finding.",
       "Reference semantics are the statement's (a directive is live iff every enclosing arm is live); key notation decoded from the generator's own choice of notation.", "runtime monitoring: reference evaluator (executable model) vs parsed configuration", "DESIGN.md 5 C13")
 
 check("C19", "exploration",
@@ -38,11 +38,11 @@ check("C19", "exploration",
       TCB, "runtime monitoring: inverse-law oracle (exhaustive for length <= 2) + dump/re-parse sessions", "DESIGN.md 5 C19")
 
 check("C06", "exploration",
-      "Online invariants at every input wait (cursor within the buffer, on a character in Vi command mode, selection within the buffer), acceptance equality (returned line == buffer observed before a plain accept), and before/after text equality for 58 (command, keymap) pairs documented as pure movements/copies invoked by name with numeric arguments from history-recalled buffers, and for sequences of 2-4 copies into named registers (replace / append) on multi-line buffers.",
+      "Online invariants at every input wait (cursor within the buffer, on a character in Vi command mode, selection within the buffer), acceptance equality (returned line == buffer observed before a plain accept), and before/after text equality for 58 (command, keymap) pairs documented as pure movements/copies invoked by name with numeric arguments from history-recalled buffers, Vi history searches for whole entries, and for sequences of 2-4 copies into named registers (replace / append) on multi-line buffers.",
       TCB, "runtime monitoring: state invariants at hooked wait points + before/after equality", "DESIGN.md 5 C06")
 
 check("C07", "exploration",
-      "Monitors over the per-step buffer snapshots of one call: every buffer produced by undo was shown before; a tail of undos reaches the initial content; n effective undos + n redos restore the text; redo after a new edit changes nothing; a timeline order model (non-deterministic over repeated texts) demands that undo lands below and redo above the current state and that a new edit cuts the undone branch. Exhaustive over all operation sequences of length <= 4 (quick) / <= 5 (thorough) on an 11-operation Emacs alphabet plus random sequences up to 40 operations in Emacs and Vi (with history walks).",
+      "Monitors over the per-step buffer snapshots of one call: every buffer produced by undo was shown before; a tail of undos reaches the initial content; n effective undos + n redos restore the text; redo after a new edit changes nothing; a timeline order model (non-deterministic over repeated texts) demands that undo lands below and redo above the current state and that a new edit cuts the undone branch. One random case in four runs after earlier calls on the same Shell. Exhaustive over all operation sequences of length <= 4 (quick) / <= 5 (thorough) on an 11-operation Emacs alphabet plus random sequences up to 40 operations in Emacs and Vi (with history walks).",
       TCB, "runtime monitoring: trace checkers (membership, timeline order model, inverse laws) over snapshot sequences", "DESIGN.md 5 C07")
 
 check("C08", "exploration",
@@ -50,11 +50,11 @@ check("C08", "exploration",
       TCB, "runtime monitoring: conservation check (before/after diff, Write-call count) on bound history sources", "DESIGN.md 5 C08")
 
 check("C09", "exploration",
-      "Reference position model vs the buffer at every wait for walks over previous/next/beginning/end-of-history and up/down-line-or-history (both ends, restoration of the in-progress text), membership oracles for prefix / substring / incremental searches (buffer in {typed text} U {entries matching the documented search text}), abort restores the text, and source contents unchanged, over 9 history shapes incl. empty, one-entry, duplicates, multi-line, metacharacters, Unicode.",
+      "Reference position model (also over 2-4 calls on one Shell with a history that grows by the accepted lines) vs the buffer at every wait for walks over previous/next/beginning/end-of-history and up/down-line-or-history (both ends, restoration of the in-progress text), membership oracles for prefix / substring / incremental searches (buffer in {typed text} U {entries matching the documented search text}), abort restores the text, and source contents unchanged, over 9 history shapes incl. empty, one-entry, duplicates, multi-line, metacharacters, Unicode.",
       TCB, "runtime monitoring: reference model + membership oracles at hooked wait points", "DESIGN.md 5 C09")
 
 check("C11", "exploration",
-      "Post-return monitors on 15 exit paths x 4 modes x 7 buffer shapes x 4 initial termios variants: TCGETS struct equality before/after, last DECSCUSR parameter reset to 0, emulator cursor in column 0 of a blank row below all text; also after a user-registered command panicked and the panic unwound through Readline.",
+      "Post-return monitors on 15 exit paths x 4 modes x 7 buffer shapes x 6 initial termios variants (incl. cbreak and raw-like), one case in three after an earlier call on the same Shell: TCGETS struct equality before/after, last DECSCUSR parameter reset to 0, emulator cursor in column 0 of a blank row below all text; also after a user-registered command panicked and the panic unwound through Readline.",
       TCB, "runtime monitoring: terminal-state monitors (termios, cursor cell, cursor style) after every exit path", "DESIGN.md 5 C11")
 
 check("C14", "exploration",
@@ -62,23 +62,23 @@ check("C14", "exploration",
       TCB, "runtime monitoring: framing equality against the pre-completion snapshot and the completer's own candidate list", "DESIGN.md 5 C14")
 
 check("C15", "exploration",
-      "Permutation-window and periodicity oracle on the sequence of words inserted by 2N+3 presses of menu-complete / menu-complete-backward, for N = 2..60 candidates in six layouts (plain, described, aliased, multi-tag, long, double-width) on terminals 20-160 x 6-40 incl. menus taller than the screen.",
+      "Permutation-window and periodicity oracle on the sequence of words inserted by 2N+3 presses of menu-complete / menu-complete-backward, for N = 2..60 candidates in six layouts (plain, described, aliased, multi-tag, long, double-width) on terminals 20-160 x 6-40 incl. menus taller than the screen, with autocomplete on in one case in five.",
       TCB, "runtime monitoring: trace checker (period-N permutation windows) over the inserted-word sequence", "DESIGN.md 5 C15")
 
 check("C16", "exploration",
-      "Inverse-law oracle kill o yank: for 10 Emacs kill commands bound by name (and Vi x/P) from every cursor position of 15 history-recalled buffers with numeric arguments, multi-kill sequences (up to 15 kills in one call: more than the kill ring holds), Vi counts around the end of the cursor's line on multi-line buffers, regions with the point on either side of the mark, the kill buffer must be exactly the removed text (L1[:i] + R + L1[i:] == L) and an immediate yank at that point must restore the buffer; after several kills yank gives the most recent.",
+      "Inverse-law oracle kill o yank: for 10 Emacs kill commands bound by name (and Vi x/P) from every cursor position of 15 history-recalled buffers with numeric arguments, multi-kill sequences (up to 15 kills in one call: more than the kill ring holds), Vi counts around the end of the cursor's line on multi-line buffers, regions with the point on either side of the mark, blink-matching-paren on in one case in four, the kill buffer must be exactly the removed text (L1[:i] + R + L1[i:] == L) and an immediate yank at that point must restore the buffer; after several kills yank gives the most recent.",
       TCB, "runtime monitoring: inverse-law oracle on before/after snapshots and the public kill-buffer getter", "DESIGN.md 5 C16")
 
 check("C17", "exploration",
-      "Differential oracle on pairs of sessions from an identical observed state: d<motion> vs y<motion> (and v<motion>d / v<motion>y) for 73 motions and text objects with counts: yank leaves the buffer unchanged, both registers are equal, and the deleted text re-inserted at one place gives back the original buffer.",
+      "Differential oracle (blink-matching-paren sampled; one case in five after an operator started and cancelled) on pairs of sessions from an identical observed state: d<motion> vs y<motion> (and v<motion>d / v<motion>y) for 73 motions and text objects with counts: yank leaves the buffer unchanged, both registers are equal, and the deleted text re-inserted at one place gives back the original buffer.",
       TCB, "runtime monitoring: differential oracle (delete vs yank) over paired sessions", "DESIGN.md 5 C17")
 
 check("C18", "exploration",
-      "Differential oracle on pairs of sessions: the key script K typed twice vs K recorded and replayed (Emacs C-x ( ... C-x ) C-x e; Vi q<r> ... q @<r> over 10 registers), K = 1-12 tokens of text with quotes/backslashes/escape look-alikes, control keys, ESC-prefixed keys, CSI keys, quoted-insert, digit arguments, Vi commands with counts and argument keys, operators with text objects and surround characters, named registers; one case in five after an empty recording on the same Shell; final buffer texts must be equal.",
+      "Differential oracle on pairs of sessions: the key script K typed twice vs K recorded and replayed (Emacs C-x ( ... C-x ) C-x e; Vi q<r> ... q @<r> over 10 registers), K = 1-12 tokens of text with quotes/backslashes/escape look-alikes, control keys, ESC-prefixed keys, CSI keys, quoted-insert, digit arguments, Vi commands with counts and argument keys, operators with text objects and surround characters, named registers; one case in four with AcceptMultiline set and a refused Return inside K; one case in five after an empty recording on the same Shell; final buffer texts must be equal.",
       TCB + " In Vi scripts a key that would combine with a directly preceding ESC into a bound sequence is excluded (replay carries no timing; same exclusion as C05).", "runtime monitoring: differential oracle (retype vs record+replay) over paired sessions", "DESIGN.md 5 C18")
 
 check("C20", "exploration",
-      "Race-detector build. Each script runs undisturbed and then with SIGWINCH (real size changes, bursts of 2-20) and Shell.Printf from a second goroutine fired at logical trigger points: at an input wait of the main loop or of a command reading its argument key, and inside a redisplay (the emulator holds the main loop's cursor answer until the disturber has queried too, then answers in either order or in one write). Half of the cases have a clean schedule (single disturbances, each fired while the main loop is really parked in its terminal read and run to its end before the next keys); findings are keyed by schedule class and known findings exist for overlapping schedules only. Oracles: no crash, no deadlock / stuck keystroke / resize or Printf goroutine blocked for good in its cursor query (logical criteria on goroutine dumps, gate counters and the tty queue), same (line, err) as the undisturbed run, consistent screen after the next redisplay, and no data race report with a library frame outside the calibrated known set.",
+      "Race-detector build. Each script runs undisturbed and then with SIGWINCH (real size changes, bursts of 2-20) and Shell.Printf from a second goroutine fired at logical trigger points: at an input wait of the main loop or of a command reading its argument key, and inside a redisplay (the emulator holds the main loop's cursor answer until the disturber has queried too, then answers in either order or in one write). Half of the cases have a clean schedule (single disturbances, each fired while the main loop is really parked in its terminal read and run to its end before the next keys, optionally with the next keys typed in the same write as the terminal's answer to the disturber); findings are keyed by schedule class and known findings exist for overlapping schedules only. Oracles: no crash, no deadlock / stuck keystroke / resize or Printf goroutine blocked for good in its cursor query (logical criteria on goroutine dumps, gate counters and the tty queue), same (line, err) as the undisturbed run, consistent screen after the next redisplay, and no data race report with a library frame outside the calibrated known set.",
       TCB + " Which interleavings are realised is reported (evidence: trigger_points_realised, race_entry_pairs, race_functions_seen); a clean run says nothing about interleavings not realised.", "runtime monitoring: Go race detector + deadlock/stuck-keystroke detectors + differential vs undisturbed run under controlled disturbance schedules", "DESIGN.md 5 C20")
 
 for _p in ["C03","C04","C05","C06","C07","C08","C09","C10","C11","C12","C13","C14","C15","C16","C17","C18","C19","C20"]:
